@@ -4,6 +4,7 @@ import (
 	"fmt"
 	"go/constant"
 	"go/token"
+	"go/types"
 	"strings"
 
 	"golang.org/x/tools/go/ssa"
@@ -26,6 +27,7 @@ func c09(c *Ctx) {
 	c09search(c)
 	c09dispatch(c)
 	c09options(c)
+	c09untouchedPath(c)
 }
 
 func strConst(p *px.Path, s *px.Sym) (string, bool) {
@@ -568,7 +570,9 @@ func c09dispatch(c *Ctx) {
 		return true, ""
 	})
 	rule = "C09.R5"
-	isServe := func(e *px.Event) bool { return e.Kind == px.EvCall && e.Call.Method != nil && e.Call.Method.Name() == "ServeHTTP" }
+	isServe := func(e *px.Event) bool {
+		return e.Kind == px.EvCall && e.Call.Method != nil && e.Call.Method.Name() == "ServeHTTP"
+	}
 	c.forall(rule, routerPkg+".(*patRouter).ServeHTTP", "found ⇒ the route's handler runs exactly once (with the bound variables attached when there are any) and nothing else is written; not found ⇒ 404 handler iff no other method matches, else the 405 handler or Allow header followed by status 405", f, ps, func(p *px.Path) (bool, string) {
 		if p.Exit != px.ExitReturn {
 			return true, ""
@@ -788,4 +792,93 @@ func c09options(c *Ctx) {
 		}
 		return true, ""
 	})
+}
+
+// c09untouchedPath (C09.R7): what reaches the router is the client's path. A middleware in front of
+// the router (file serving, …) that rewrites r.URL.Path may do so only on paths where it answers the
+// request itself; on every path that passes the request on to the wrapped handler (`next`, a
+// parameter of an enclosing function) no field of r.URL has been stored — otherwise the router
+// matches a shortened path: wrong route, wrong variables, or a 404 for a registered route
+// (seed r3-C09-1).
+func c09untouchedPath(c *Ctx) {
+	rule := "C09.R7"
+	n := 0
+	for _, pkg := range []string{"rest/internal/fileserver", "rest/handler", "rest", "rest/internal/cors", "rest/chain"} {
+		for _, f := range c.P.AllFuncs(pkg) {
+			// handler-shaped functions that store into a url.URL
+			if f.Signature.Params().Len() != 2 || typeString(f.Signature.Params().At(1).Type()) != "*net/http.Request" {
+				continue
+			}
+			writes := false
+			for _, b := range f.Blocks {
+				for _, ins := range b.Instrs {
+					if st, ok := ins.(*ssa.Store); ok {
+						if fa, ok := st.Addr.(*ssa.FieldAddr); ok {
+							if pt, ok := fa.X.Type().Underlying().(*types.Pointer); ok && typeString(pt.Elem()) == "net/url.URL" {
+								writes = true
+							}
+						}
+					}
+				}
+			}
+			if !writes {
+				continue
+			}
+			n++
+			ps := c.paths(rule, f, px.Config{MaxVisits: 2})
+			name := pkg + "." + f.Name()
+			if f.Parent() != nil {
+				name = pkg + "." + f.Parent().Name() + "$handler"
+				if f.Parent().Parent() != nil {
+					name = pkg + "." + f.Parent().Parent().Name() + "$handler"
+				}
+			}
+			c.forall(rule, name, "on every path that hands the request to the wrapped handler, r.URL has not been modified", f, ps, func(p *px.Path) (bool, string) {
+				touched := ""
+				for i := range p.Events {
+					e := &p.Events[i]
+					if e.Kind == px.EvStore && e.Addr != nil && e.Addr.Kind == px.KFieldAddr && e.Addr.X != nil {
+						if pt, ok := e.Addr.X.Typ.Underlying().(*types.Pointer); ok && typeString(pt.Elem()) == "net/url.URL" {
+							touched = c.P.Pos(e.Instr.Pos())
+						}
+					}
+					if e.Kind == px.EvCall && touched != "" {
+						// the wrapped handler: a function value / receiver that is a parameter of an enclosing function
+						var fv *px.Sym
+						if e.Call.IsDyn() {
+							fv = e.Call.FnSym
+						} else if e.Call.Method != nil && e.Call.Method.Name() == "ServeHTTP" {
+							fv = e.Call.Recv
+						}
+						if fv != nil && fromOuterParam(fv, f) {
+							return false, fmt.Sprintf("r.URL is rewritten at %s and the request is then passed on to the wrapped handler at %s: the router sees the rewritten path", touched, c.P.Pos(e.Instr.Pos()))
+						}
+					}
+				}
+				return true, ""
+			})
+		}
+	}
+	c.R.Min(rule, 1, "request-rewriting middlewares (file server)")
+}
+
+// fromOuterParam: s is a parameter of a function enclosing f (captured directly or through the cell
+// the compiler spills a captured parameter to).
+func fromOuterParam(s *px.Sym, f *ssa.Function) bool {
+	s = s.Strip(false)
+	if s == nil || s.V == nil {
+		return false
+	}
+	in := f
+	if ins, ok := s.V.(ssa.Instruction); ok && ins.Parent() != nil {
+		in = ins.Parent()
+	} else if fv, ok := s.V.(*ssa.FreeVar); ok {
+		in = fv.Parent()
+	}
+	for _, v := range reachingDefs(s.V, in, 0) {
+		if prm, ok := v.(*ssa.Parameter); ok && prm.Parent() != f {
+			return true
+		}
+	}
+	return false
 }
